@@ -535,7 +535,7 @@ def signature(sp, cid, payload, exp, obs):
                 if pe[1] != po[1]:
                     how += " and leaves the wrong lastIndex"
             else:
-                how = "right result but lastIndex afterwards is wrong (%s for %s)" % (_li_word(po[1]), _li_word(pe[1]))
+                how = "right result but wrong lastIndex afterwards"
         key = "hist|%s|%s|%s|%s" % (opname if kind != "set" else "set", fc, pre, how)
         what = "%s on a %s regex with %s before the call: %s" % (opname if kind != "set" else "lastIndex = k", fc, pre, how)
         return key, what
@@ -566,17 +566,7 @@ def signature(sp, cid, payload, exp, obs):
         elif len(pe) == 4 and pe[1] != po[1]:
             how = "replacer function called with the wrong arguments"
         else:
-            how = "right result but lastIndex afterwards is wrong (%s for %s)" % (_li_word(po[-1]), _li_word(pe[-1]))
+            how = "right result but wrong lastIndex afterwards"
     key = "sm|%s%s|%s|li=%d|%s" % (method, var, fc, k, how)
     what = "String.prototype.%s%s with a %s regex, lastIndex %d before the call: %s" % (method, var, fc, k, how)
     return key, what
-
-
-def _li_word(tok):
-    if tok in D:
-        return str(D[tok])
-    if tok.startswith("d"):
-        return "another number"
-    if tok.startswith("s"):
-        return "a string"
-    return tok[:12]
